@@ -400,6 +400,25 @@ def h_sympy_numeric(env, spec, n):
     env.check_true(not bad, "sympy backend, numeric angles: frequency == |amplitude|^2 of the numpy evaluation (1e-9)", detail=str(bad[:3]))
 
 
+def h_wide_deterministic(env, n, ones, shots, save_mid, measure):
+    """ENUMERATED concrete shape: a register wider than 10 qubits prepared in a basis state with X gates (optionally with a
+    mid-circuit MEASURE): every simulation mode of the cirq backend reports exactly that bitstring, qubit 0 first"""
+    from tangelo.linq import Circuit, Gate, get_backend
+    gates = [Gate("X", q) for q in ones]
+    if measure is not None:
+        gates.insert(len(gates) // 2, Gate("MEASURE", measure))
+    circ = Circuit(gates, n_qubits=n)
+    want = "".join("1" if q in ones else "0" for q in range(n))
+    with shim.concrete_mode():
+        b = get_backend("cirq", n_shots=shots)
+        kw = dict(save_mid_circuit_meas=True) if save_mid else {}
+        freqs, _ = b.simulate(circ, **kw)
+    env.check_same({k: float(v) for k, v in freqs.items()}, {want: 1.0},
+                   f"cirq, {n} qubits, n_shots={shots}, save_mid_circuit_meas={save_mid}, MEASURE on {measure}: the prepared basis state, qubit 0 first")
+    if save_mid and measure is not None:
+        env.check_same(dict(b.mid_circuit_meas_freqs), {("1" if measure in ones[:len(ones) // 2] else "0"): 1.0}, "mid-circuit outcome of the deterministic measurement")
+
+
 def placements(n, n_t, n_c):
     for qs in itertools.permutations(range(n), n_t + n_c):
         tg, ct = list(qs[:n_t]), list(qs[n_t:])
@@ -416,6 +435,10 @@ def shapes(tier, seed):
     numeric = [[("RY", [0], None, 1.0471), ("RX", [1], None, 0.7), ("CNOT", [1], [0], None), ("RZ", [1], None, 2.113)],
                [("H", [0], None, None), ("CRY", [1], [0], 0.31415), ("PHASE", [1], None, 1.234), ("RX", [0], None, -2.5)],
                [("RY", [1], None, 5.0001), ("CRX", [0], [1], 1.0e-3), ("RY", [0], None, 0.123456789)]]
+    for n_, ones_ in ((11, (0, 3, 10)), (12, (1, 2, 11)), (13, (12,))):
+        for shots_, sm_, me_ in ((None, False, None), (3, False, None), (3, True, None), (3, True, ones_[0]), (1, True, 5)):
+            out.append(Shape(f"wide/n{n_}/{'-'.join(map(str, ones_))}/shots={shots_}/save={int(sm_)}/m={me_}", h_wide_deterministic,
+                             dict(n=n_, ones=ones_, shots=shots_, save_mid=sm_, measure=me_), modules=()))
     for i, sp_ in enumerate(numeric):
         out.append(Shape(f"sympy/numeric/{i}", h_sympy_numeric, dict(spec=sp_, n=2), modules=()))
     for be in ("cirq", "sympy"):
